@@ -285,12 +285,14 @@ def final (cfg : Cfg) : S → List Event → S
 
 /-- Decidable well-formedness: positive GC interval; every concurrent quota's ancestor chain is made of
     distinct concurrent quotas; flow order mentions existing quotas; every concurrent quota sits in a quota tree
-    (so it has its `QuotaProcessorDec` in the system flow). -/
+    (so it has its `QuotaProcessorDec` in the system flow); fixed-window quotas are roots without internal limits of
+    interest (mixed trees are handled by `Model/C02Mixed.lean`, outside the theorems). -/
 def Cfg.wf (cfg : Cfg) : Bool :=
   decide (0 < cfg.gc) &&
   (List.range cfg.quotas.length).all (fun q =>
     !cfg.isConc q || (decide (cfg.chainOf q).Nodup && (cfg.chainOf q).all cfg.isConc)) &&
   cfg.order.all (fun q => decide (q < cfg.quotas.length)) &&
-  (List.range cfg.quotas.length).all (fun q => !cfg.isConc q || cfg.sysDecs.contains q)
+  (List.range cfg.quotas.length).all (fun q => !cfg.isConc q || cfg.sysDecs.contains q) &&
+  (List.range cfg.quotas.length).all (fun q => cfg.isConc q || (cfg.parent q).isNone)
 
 end LunarVerif.C02
